@@ -405,7 +405,13 @@ def gen(ctx, depth, dom, ran, p_bad=0.0):
 
     if k in ('add', 'sub', 'ptw'):
         a = gen(ctx, d1, dom, ran, p_bad)
-        b = gen(ctx, r.randint(0, d1), other_dim(dom) if bad else dom, ran, p_bad)
+        bd, br = dom, ran
+        if bad:
+            if r.random() < 0.5:
+                bd = other_dim(dom)
+            else:
+                br = (r.choice(DIMS) if ran == 'F' else r.choice([other_dim(ran), 'F']))
+        b = gen(ctx, r.randint(0, d1), bd, br, p_bad)
         return (k, a, b)
     if k == 'mul':
         mid = r.choice(DIMS)
@@ -791,6 +797,25 @@ def correspondence(rng, tier):
         t = gen(ctx, depth, rng.choice(DIMS), ran, p_bad=0.03)
         term, desc, key = run_case(ctx, t, npts=2 if tier == 'quick' else 3)
         cs.add(term, desc, key)
+    # deterministic edge cases: every ill-typed form of the syntax on every leaf kind
+    for cplx, cset in ((False, cs),):
+        for ran in (2, 'F'):
+            for want in ('lin', 'nonlin', 'func'):
+                if (ran == 2 and want == 'func') or (ran == 'F' and want == 'nonlin'):
+                    continue
+                ctx = Ctx(rng, cplx)
+                A = lambda d=2, r=ran, w=want: ('leaf', make_leaf(ctx, d, r, w))
+                edge = [('pow', A(), 0), ('pow', A(), -1), ('pow', A(), 1), ('divc', A(), 0), ('divc', A(), 0.0),
+                        ('add', A(), A(3)), ('add', A(), A(2, 3)), ('sub', A(), A(2, 'F' if ran == 2 else 2)),
+                        ('mul', A(), A(2, 3)), ('mul', A(3), A()), ('ptw', A(), A(3)), ('ptw', A(), A(2, 3 if ran == 2 else 2)), ('ptw', A(), A()),
+                        ('addv', A(), ctx.ivec(3)), ('vadd', A(), ctx.ivec(1)), ('subv', A(), ctx.ivec(3)),
+                        ('vsub', A(), ctx.ivec(3)), ('mulv', A(), ctx.ivec(3)), ('vmul', A(), ctx.ivec(3)),
+                        ('pow', ('leaf', make_leaf(ctx, 2, 3, 'lin')), 2), ('pow', ('leaf', make_leaf(ctx, 2, 3)), 1)]
+                for t in edge:
+                    c2 = Ctx(rng, cplx)
+                    t2 = thaw(c2, freeze(t))
+                    term, desc, key = run_case(c2, t2, npts=1)
+                    cset.add(term, desc, key)
     cc = C.CaseSet('complex', ['Base.Vec', 'C04.Model', 'C04.Cplx', 'C04.Corr'], 'check_cplx', 'case QC')
     for i in range(n // 3):
         ctx = Ctx(rng, True)
@@ -1110,6 +1135,38 @@ def probes(rng, tier):
             for t in _fixed_trees(ctx):
                 xs = [ctx.ivec(2, -2, 2) for _ in range(2)]
                 out.append(_tree_probe(ctx, t, xs, 'fixed interaction pattern vs reference interpreter'))
+    # 2b. operand kinds outside the syntax must be rejected with TypeError (no silent garbage)
+    import numpy as np
+    r2 = odl.rn(2)
+    ops = {'linear': odl.MatrixOperator(np.array([[1., 2], [0, 1]])), 'nonlinear': odl.PowerOperator(r2, 2),
+           'functional': odl.solvers.L2NormSquared(r2),
+           'RightScalarMult': odl.PowerOperator(r2, 2) * 2.0}
+    forms = {'A/v': 'A / v', 'A/B': 'A / A', 'v/A': 'v / A', '2/A': '2.0 / A', 'A**2.5': 'A ** 2.5', 'A**A': 'A ** A',
+             'A**0': 'A ** 0', 'A+str': 'A + "s"', 'A*str': 'A * "s"', 'A*None': 'A * None', 'None*A': 'None * A',
+             'A*1j': 'A * 1j', '1j*A': '1j * A', 'A+1j': 'A + 1j', 'A/1j': 'A / 1j', 'A-1j': 'A - 1j',
+             'A*w': 'A * w', 'w*A': 'w * A' , 'A+w': 'A + w'}
+    for oname, A in sorted(ops.items()):
+        for fname, src in sorted(forms.items()):
+            if oname == 'functional' and fname == 'w*A':
+                continue          # w * f is FunctionalLeftVectorMult for any w: well-typed
+            env = {'A': A, 'v': r2.element([1, 2]), 'w': odl.rn(3).element([1, 2, 3])}
+            try:
+                eval(src, env)
+                ok, obs = False, 'no exception'
+            except (TypeError, AttributeError) as e:
+                # `v / A` ends in AttributeError (LinearSpaceElement.__truediv__ calls a missing
+                # Operator.__rtruediv__): still a rejection, which is all the property needs
+                ok, obs = True, type(e).__name__
+            except Exception as e:    # noqa
+                ok, obs = False, type(e).__name__
+            rp = ("import odl, numpy as np\nr2=odl.rn(2)\nops=%s\nA=ops[%r]; v=r2.element([1,2]); w=odl.rn(3).element([1,2,3])\n"
+                  "try:\n    %s\n    observed='no exception'\nexcept Exception as e:\n    observed=type(e).__name__\n"
+                  "expected='TypeError'; ok=(observed in ('TypeError', 'AttributeError'))\n"
+                  % ("{'linear': odl.MatrixOperator(np.array([[1.,2],[0,1]])), 'nonlinear': odl.PowerOperator(r2,2), "
+                     "'functional': odl.solvers.L2NormSquared(r2), 'RightScalarMult': odl.PowerOperator(r2,2)*2.0}",
+                     oname, src))
+            out.append(C.Probe(ok, 'illtyped-operand:%s:%s' % (fname, oname),
+                               '%s with A %s must be rejected (got %s)' % (src, oname, obs), rp))
     # 3. the premise of the A*a -> a*A rewrite on odl's own classes
     for name, mk in _registry():
         try:
